@@ -44,6 +44,7 @@ def run(root, tag, seed, rounds=1):
             for rel in ('canary-root.txt', 'build/canary-build.txt', 'build/builds/canary-builds.txt', 'tc/canary-tc.txt'):
                 os.makedirs(os.path.dirname(os.path.join(C, rel)), exist_ok=True)
                 txt = f'CANARY {rel} {rng.randrange(10**9)}'; open(os.path.join(C, rel), 'w').write(txt); canaries[txt] = rel
+            os.makedirs(os.path.join(C, 'victim-dir', 'sub')); open(os.path.join(C, 'victim-dir', 'sub', 'kept.txt'), 'w').write('KEPT')
             good = {'marker': f'good{rd}'}
             base = {'toolchain': good, 'cwd': '/w', 'outputs': ['out.o'], 'args': ['C', 'in.txt', 'out.o'], 'inputs': [{'kind': 'file', 'name': 'w/in.txt', 'data': 'INPUT-0'}]}
             def J(note, expect=None, **kw): j = dict(base); j.update(kw); j['note'] = note; j['expect'] = expect; return j
@@ -73,11 +74,24 @@ def run(root, tag, seed, rounds=1):
                 J('the job swaps its working directory for a symlink to a host directory', cwd='/w/inner', outputs=['canary-tc.txt'], args=['D', '../inner', 'S', os.path.join(C, 'tc'), '../inner'], inputs=[]),
                 J('toolchain with a symlink to a host directory, cwd below it', toolchain={'marker': 'lnk', 'links': [['hostdir', os.path.join(C, 'tc')]]}, cwd='/hostdir/esc-via-toolchain-link', args=['W', 'out.o', 'x'], inputs=[]),
                 J('toolchain with a symlink to a host directory, output below it', toolchain={'marker': 'lnk', 'links': [['hostdir', os.path.join(C, 'tc')]]}, outputs=['/hostdir/canary-tc.txt'], args=['W', 'out.o', 'x'], inputs=[]),
+                # crafted toolchain identifiers (alloc_job, a refused raw submit_toolchain, run_job): relative with `..`, absolute, below an unpacked toolchain, empty
+                J('toolchain id with .. (names a directory outside the builder directory)', toolchain_id='../../esc-tcid', args=['W', 'out.o', 'x'], inputs=[]),
+                J('absolute toolchain id', toolchain_id=os.path.join(C, 'esc-abs-tcid'), args=['W', 'out.o', 'x'], inputs=[]),
+                J('toolchain id naming a directory inside an unpacked toolchain', toolchain_id='@GOOD@/bin/esc-in-toolchain', args=['W', 'out.o', 'x'], inputs=[]),
+                J('toolchain id naming the builds directory', toolchain_id='../builds/esc-builds', args=['W', 'out.o', 'x'], inputs=[]),
+                J('toolchain id naming an existing host directory', toolchain_id='../../victim-dir', args=['W', 'out.o', 'x'], inputs=[]),
+                J('toolchain id naming an existing directory of an unpacked toolchain', toolchain_id='@GOOD@/bin', args=['W', 'out.o', 'x'], inputs=[]),
+                J('later job reads the toolchain after the crafted ids', expect={'out.o': good['marker']}, args=['C', '/bin/marker', 'out.o'], inputs=[]),
+                J('empty toolchain id', toolchain_id='', args=['W', 'out.o', 'x'], inputs=[]),
                 J('benign again after all of that', expect={'out.o': 'INPUT-1'}, inputs=[{'kind': 'file', 'name': 'w/in.txt', 'data': 'INPUT-1'}]),
             ]
             skip = ['distcache', 'build/builds/__live__']
             tc_state = {}
             for j in jobs:
+                if '@GOOD@' in j.get('toolchain_id', ''):
+                    # the directory name of the first toolchain that was unpacked
+                    tcs = sorted(os.listdir(os.path.join(B, 'toolchains'))) if os.path.isdir(os.path.join(B, 'toolchains')) else []
+                    j = dict(j); j['toolchain_id'] = j['toolchain_id'].replace('@GOOD@', tcs[0] if tcs else 'none')
                 before = tree(C, skip)
                 spec = {'scheduler': f'http://127.0.0.1:{cl.sport}', 'token': 'goodtoken', 'cache_dir': os.path.join(C, 'distcache'), 'jobtool': jobtool_bin(), 'jobs': [j]}
                 sp = os.path.join(d, 'spec.json'); json.dump(spec, open(sp, 'w'))
@@ -85,7 +99,7 @@ def run(root, tag, seed, rounds=1):
                 try: res = json.loads(p.stdout.strip().splitlines()[-1])
                 except Exception: res = {'result': 'harness_error', 'detail': (p.stdout + p.stderr)[-300:]}
                 after = tree(C, skip); njobs += 1
-                line = f'{j["note"]}: cwd={j["cwd"]} outputs={j["outputs"]} args={j["args"]} inputs={[(m["kind"], m["name"], m.get("target", "")) for m in j["inputs"]]} toolchain={j["toolchain"]} -> {res.get("result")} status={res.get("status")} outputs={res.get("outputs")} {res.get("detail", "")[:160]} stdout={res.get("stdout", "")!r}'
+                line = f'{j["note"]}: cwd={j["cwd"]} outputs={j["outputs"]} args={j["args"]} inputs={[(m["kind"], m["name"], m.get("target", "")) for m in j["inputs"]]} toolchain={j["toolchain"] if "toolchain_id" not in j else "id " + repr(j["toolchain_id"])} -> {res.get("result")} status={res.get("status")} outputs={res.get("outputs")} {res.get("detail", "")[:160]} stdout={res.get("stdout", "")!r}'
                 if len(samples) < 3: samples.append(line[:400])
                 completed += res.get('result') == 'complete'; refused += res.get('result') == 'error'
                 # ---- host file system: nothing outside the toolchain cache and the private root may appear or change
